@@ -130,6 +130,12 @@ func (e *storeEnv) namesBatch(tuples []*ketoapi.RelationTuple) map[string]any {
 	for _, t := range tuples {
 		req.RelationTupleDeltas = append(req.RelationTupleDeltas, &rts.RelationTupleDelta{Action: rts.RelationTupleDelta_ACTION_INSERT, RelationTuple: t.ToProto()})
 	}
+	// the first attempt meets a storage failure after the names were mapped; the client retries
+	sqlCtl.beginTableFault("keto_relation_tuples")
+	_, ferr := e.rt.TransactRelationTuples(ctx, req)
+	if hit := sqlCtl.endTableFault(); hit && ferr == nil {
+		bad = append(bad, "a write whose INSERT failed reported success")
+	}
 	if _, err := e.rt.TransactRelationTuples(ctx, req); err != nil {
 		return map[string]any{"error": "transact: " + err.Error()}
 	}
